@@ -179,6 +179,19 @@ def verify_function(key, tier='quick', keep_terms=False, discharge=True):
                 ex.exits['raise'] += 1
 
         ex.run(run)
+        # a ghost_after key is matched against ast.unparse() of a statement: a key that never matched (typo,
+        # statement rewritten) would silently drop its ghost code, so it is an error of the contract
+        missed = sorted(set(getattr(c, 'ghost_after', None) or {}) - getattr(ex, 'ghost_hit', set()))
+        if missed:
+            # the proofs that relied on that ghost code are not to be trusted; refutations still are
+            ex.partial = (getattr(ex, 'partial', None) or '') + \
+                'ghost_after key(s) matched no executed statement: %s; ' % '; '.join(missed)
+            # ... except refutations of goals that talk about ghost state: the ghost code that maintains it did
+            # not run, so they say nothing about the program
+            for ob in ex.obligations:
+                if _mentions_ghost(ob.goal):
+                    ob.ghost_dep = True
+        res.partial = getattr(ex, 'partial', None)
         res.paths = ex.paths
         res.exits = dict(ex.exits)
         # discharge
@@ -230,7 +243,40 @@ def model_text(m, limit=6000):
         return 'model unavailable: %s' % e
 
 
+def _mentions_ghost(goal):
+    """True when the goal refers to a ghost field (heap array H<epoch>_<Class.field> of a declared ghost field) or
+    a ghost local (_g*)."""
+    ghost = set()
+    for cn, ci in R.CLASSES.items():
+        for f in getattr(ci, 'ghost', ()):
+            ghost.add('%s.%s' % (cn, f))
+    seen = set()
+    todo = [goal]
+    while todo:
+        t = todo.pop()
+        if t.get_id() in seen:
+            continue
+        seen.add(t.get_id())
+        if z3.is_quantifier(t):
+            todo.append(t.body())
+            continue
+        if z3.is_app(t):
+            if t.num_args() == 0 or t.decl().kind() == z3.Z3_OP_UNINTERPRETED:
+                nm = t.decl().name()
+                base = nm.split('_', 1)[1] if nm.startswith('H') and '_' in nm else nm
+                base = base.split('!')[0]
+                if base in ghost or nm.startswith('lv__g') or nm.startswith('hv_') and nm[3:].split('!')[0] in \
+                        set(g.split('.', 1)[1] for g in ghost):
+                    return True
+            todo.extend(t.children())
+    return False
+
+
 def obligation_record(ob):
+    if ob.status == 'refuted' and getattr(ob, 'ghost_dep', False):
+        ob.status = 'unknown'
+        ob.detail = (ob.detail or '') + ' | counter-model discarded: the goal mentions ghost state and ghost code of ' \
+                                         'the contract did not run (ghost_after key without a matching statement)'
     d = dict(name=ob.name, label=ob.label, line=ob.lineno, status=ob.status, backend=ob.backend,
              time=round(ob.time, 4), kind=ob.kind, path=list(ob.path))
     if ob.status == 'refuted' and ob.model is not None:
